@@ -203,9 +203,11 @@ static FWire dispatch(const std::string& comp,Reader& r,FReader&) {
             kernel_D(integrator,mp(0),mp(1),out.f);
             if (&mp(0)!=&mp(1)) kernel_D(integrator,mp(1),mp(0),out.f);
         }
-        const SymMatrix H = HeadMat(geo,integrator);
-        out.z.push_back((ll)H.nlin());
-        for (size_t k=0;k<H.size();++k) out.f.push_back(H.data()[k]);
+        try {
+            const SymMatrix H = HeadMat(geo,integrator);
+            out.z.push_back((ll)H.nlin());
+            for (size_t k=0;k<H.size();++k) out.f.push_back(H.data()[k]);
+        } catch (std::invalid_argument&) { out.z[0] = ST_ASSERT; out.z.push_back(-1); }   // the indexed geometry is still reported
         return out;
     }
     if (op==2) {
